@@ -11,8 +11,10 @@ M1 == [i |-> Id(0, 0), e |-> Id(0, 1), r |-> Id(2, 0)]
 M2 == [i |-> Id(2, 0), e |-> Id(1, 0), r |-> Id(1, 0)]
 \* touches the top of the id space: internal 12..15 <-> external 0..3
 M3 == [i |-> Id(3, 0), e |-> Id(0, 0), r |-> Id(1, 0)]
-MC_Maps == {M1, M2}
-MC_Maps3 == {M1, M2, M3}
+\* a mount's own mapping with an empty range: translates nothing, still replaces the global mapping
+M0r == [i |-> Id(0, 2), e |-> Id(1, 1), r |-> Zero]
+MC_Maps == {M1, M2, M0r}
+MC_Maps3 == {M1, M2, M3, M0r}
 MC_GMaps == {NoMap, M1}
 MC_NoMaps == {}
 MC_NoGMaps == {NoMap}
